@@ -517,7 +517,25 @@ class BytesIOModel:
         raise Unsupported("BytesIO.readinto has no model")
 
     def truncate(self, size=None):
-        raise Unsupported("BytesIO.truncate has no model")
+        self._chk()
+        if size is None:
+            del self.items[self.idx:]
+            return self._pos_len(self.idx)
+        if type(size) is SymInt:
+            size = size.__index__()
+        n = 0
+        for k, it in enumerate(self.items):
+            if n == size:
+                del self.items[k:]
+                self.idx = min(self.idx, k)
+                return size
+            ln = it.length if type(it) is Blob else 1
+            if type(ln) is SymInt:
+                raise Unsupported("BytesIO.truncate across a symbolic-length payload")
+            n += ln
+            if n > size:
+                raise Unsupported("BytesIO.truncate inside a payload")
+        return size
 
     def readable(self): return True
     def writable(self): return True
